@@ -5,7 +5,8 @@
 # DigestMSI.  Correspondence: the Coq models (red-black insertion, makeFreeSectors, addStream, allocSectorTables, lessDirEnt)
 # and the proved validator cfb_check are evaluated on the same cases through the extracted runner.
 import hashlib, json, os, struct
-from vlib.common import Hex, OUT
+import re
+from vlib.common import Hex, OUT, VERIF
 
 FP = ["lib/comdoc:", "lib/redblack:"] + ["lib/authenticode:." + f for f in ("sortMsiFiles", "hashMsiDir", "prehashMsiDir", "prehashMsiDirent", "MsiToTar",
       "msiToTarDir", "DigestMsiTar", "DigestMSI", "InsertMSISignature", "msiDecodeName")]
@@ -14,6 +15,15 @@ FP = ["lib/comdoc:", "lib/redblack:"] + ["lib/authenticode:." + f for f in ("sor
 # (f87d35e, f8ff9c3) and are violations again if they reappear; the seven keys C18:sign-fails:no-ministream, C18:close-panics:no-minifat,
 # C18:add-panics:empty-content, C18:tree-links-unallocated-entry, C18:digest:{nested-signature-name,decoded-signature-name,exmeta-name}
 # are listed there as findings and print KNOWN-FINDING while they reproduce.
+# Round 2 (directory layer): C18:DeleteFile:fold-vs-upper (3180389: DeleteFile matched with strings.EqualFold, the tree is keyed by length +
+# upper-cased UTF-16 units; dotless i), C18:digest:case-variant-signature-name (49b18ed), C18:digest:signature-named-storage and
+# C18:digest:nested-signature-name (fae3cb8) were fixed in /repo; their inputs stay in the harness (kinds names-*) and reappear under
+# C18:tree-order:duplicate-name / C18:sibling-names-equal / C18:replace:* / C18:digest:* if they regress.
+#
+# Directory layer oracle (model-free): inside a storage a name is its length and its upper-cased UTF-16 code units ([MS-CFB] 2.6.4,
+# simple case mapping of the Unicode Character Database).  After AddFile / InsertMSISignature exactly ONE root entry carries the name,
+# spelled as given, with the given bytes; after DeleteFile none; everything that does not carry the name keeps name, metadata and
+# bytes; a storage carrying the name or a name of more than 31 code units is a legitimate refusal that leaves the file untouched.
 
 # ---------------------------------------------------------------- MS-CFB validator / reader (model-free oracle)
 # Written from [MS-CFB] (header 2.2, FAT 2.3, miniFAT 2.4, DIFAT 2.5, directory 2.6, red-black tree and name order 2.6.4).
@@ -25,14 +35,36 @@ NOSTREAM = 0xFFFFFFFF
 CFB_MAGIC = bytes([0xD0, 0xCF, 0x11, 0xE0, 0xA1, 0xB1, 0x1A, 0xE1])
 
 
+_UPPER = None
+
+
+def _upper_table():
+    """Simple_Uppercase_Mapping of the Unicode Character Database for single UTF-16 code units: the static table of
+    coq/C18/UnicodeSpec.v (produced from UnicodeData.txt, not from Go or relic).  Python's str.upper() applies the FULL case
+    mapping (U+1F80 -> two characters), which is not what [MS-CFB] 2.6.4 asks for, so it is only the fallback."""
+    global _UPPER
+    if _UPPER is None:
+        _UPPER = {}
+        try:
+            txt = open(os.path.join(VERIF, "coq", "C18", "UnicodeSpec.v")).read()
+            body = txt[txt.index("spec_upper_runs"):]
+            for lo, hi, d in re.findall(r"\((\d+), (\d+), \(?(-?\d+)\)?\)", body):
+                for u in range(int(lo), int(hi) + 1):
+                    _UPPER[u] = u + int(d)
+        except (OSError, ValueError):
+            for u in range(0x10000):
+                if not 0xD800 <= u <= 0xDFFF:
+                    x = chr(u).upper()
+                    if len(x) == 1 and ord(x) < 0x10000 and ord(x) != u:
+                        _UPPER[u] = ord(x)
+    return _UPPER
+
+
 def cfb_upper(u):
-    """simple upper-case mapping of one UTF-16 code unit (surrogates and multi-character mappings stay as they are)"""
+    """simple upper-case mapping of one UTF-16 code unit (surrogate halves stay as they are)"""
     if 0xD800 <= u <= 0xDFFF:
         return u
-    s = chr(u).upper()
-    if len(s) == 1 and ord(s) < 0x10000:
-        return ord(s)
-    return u
+    return _upper_table().get(u, u)
 
 
 def cfb_name_key(units):
@@ -334,6 +366,13 @@ def cfb_read(b):
                 bad("tree-order", "%s: in-order neighbours %d,%d not increasing (%r, %r)" % (
                     path, members[a]["idx"], members[a + 1]["idx"], u16s(members[a].get("name", [])), u16s(members[a + 1].get("name", []))))
                 break
+        # two objects under the same storage must not have the same name under that comparison, wherever they sit in the tree
+        order = sorted(range(len(keys)), key=lambda i: keys[i])
+        for a, b2 in zip(order, order[1:]):
+            if keys[a] == keys[b2]:
+                bad("sibling-names-equal", "%s: entries %d and %d carry the same name under the MS-CFB comparison (%r, %r)" % (
+                    path, members[a]["idx"], members[b2]["idx"], u16s(members[a].get("name", [])), u16s(members[b2].get("name", []))))
+                break
         for e in members:
             p = path + [tuple(e.get("name", []))]
             items.append((tuple(p), e))
@@ -372,6 +411,17 @@ SIGEX = tuple(ord(ch) for ch in "\x05MsiDigitalSignatureEx")
 EXMETA = tuple(ord(ch) for ch in "__exmeta")
 
 
+def go_units(hexname):
+    """UTF-16 code units of a Go string given as hex of its UTF-8 bytes (what utf16.Encode([]rune(name)) yields)"""
+    b = bytes.fromhex(hexname).decode("utf8", errors="replace").encode("utf-16-le")
+    return tuple(struct.unpack("<%dH" % (len(b) // 2), b))
+
+
+def same_name(a, b):
+    """[MS-CFB] 2.6.4: two siblings have the same name when neither is less than the other"""
+    return cfb_name_key(a) == cfb_name_key(b)
+
+
 def msi_decode(units):
     """the MSI stream-name packing (two base-64 digits per code unit in 0x3800..0x47FF, one in 0x4800..0x483F)"""
     def d(x):
@@ -401,8 +451,16 @@ def relic_key(units):
 def digest_class(c):
     for path, e in c.items:
         nm = path[-1]
-        if len(path) > 1 and nm in (SIG, SIGEX):
+        if len(path) > 1 and (same_name(nm, SIG) or same_name(nm, SIGEX)):
             return "nested-signature-name"
+    for path, e in c.items:
+        nm = path[-1]
+        if len(path) == 1 and e["type"] == 1 and (same_name(nm, SIG) or same_name(nm, SIGEX)):
+            return "signature-named-storage"      # DigestMSI skips the whole storage, DigestMsiTar hashes the streams inside it
+    for path, e in c.items:
+        nm = path[-1]
+        if len(path) == 1 and nm not in (SIG, SIGEX) and (same_name(nm, SIG) or same_name(nm, SIGEX)):
+            return "case-variant-signature-name"
     for path, e in c.items:
         nm = path[-1]
         if len(path) == 1 and nm not in (SIG, SIGEX) and tuple(ord(ch) for ch in msi_decode(nm)) in (SIG, SIGEX):
@@ -509,6 +567,7 @@ def run(ctx, replay=None):
     # ------------------------------------------------------------ oracle on every file the writer left behind
     files = []          # (path, python verdict codes) for the Coq validator comparison
     n_steps = n_ok = 0
+    refusals = {}
     distinct = set()
     kinds = {}
     for s in scen:
@@ -530,6 +589,7 @@ def run(ctx, replay=None):
             elif ind0 and not d[0].startswith(("err", "panic")) and d[0] != ind0 and digest_class(c0) == "tar-vs-direct":
                 report("C18:digest:independent", "DigestMSI %s differs from the independently computed MSI digest %s" % (d[0], ind0), scen_replay(s, -1))
         prev_c, prev_pay = c0, cfb_payload(c0)
+        prev_bytes = inb
         for k, stp in enumerate(s["steps"]):
             n_steps += 1
             kinds[s["kind"]] = kinds.get(s["kind"], 0) + 1
@@ -538,11 +598,33 @@ def run(ctx, replay=None):
             P, c = cfb_read(outb)
             files.append((stp["out"], sorted(set(x[0] for x in P))))
             pay = cfb_payload(c) if not P or c.items else {}
+            # the names the operation is about, as UTF-16 code units
+            opname = go_units(stp.get("name", "")) if stp["op"] != "sign" else None
+            opnames = [SIG, SIGEX] if stp["op"] == "sign" else [opname]
             if stp["status"] != "ok":
+                # a refusal is legitimate when a STORAGE of the root carries the name (it cannot be replaced by a stream) or when
+                # the name does not fit a directory entry (31 code units); the file must then be exactly the container it was
+                legit = None
+                root_storages = [p[0] for p, v in prev_pay.items() if len(p) == 1 and v[0] == 1]
+                if "can't delete or replace storages" in stp["status"] and any(same_name(n, x) for n in opnames for x in root_storages):
+                    legit = "storage-carries-the-name"
+                elif "name is too long" in stp["status"] and stp["op"] == "add" and len(opname) > 31:
+                    legit = "name-does-not-fit"
+                hard = [x for x in P if x[0] not in ("file-size-not-sector-multiple",)]
+                if legit:
+                    refusals[legit] = refusals.get(legit, 0) + 1
+                    if hard or pay != prev_pay:
+                        report("C18:torn-after-refusal", "%s refused (%s) but the file is no longer the valid container it was: %s" % (stp["op"], legit, hard[:3]), scen_replay(s, k))
+                    elif stp["op"] == "sign" and outb != prev_bytes:
+                        # InsertMSISignature checks the signature slots before it changes anything: a refused signing must not have
+                        # written a single byte (no half-inserted extended signature in the mini stream or in free sectors)
+                        diff = [i for i in range(min(len(outb), len(prev_bytes))) if outb[i] != prev_bytes[i]]
+                        report("C18:written-before-refusal", "sign refused (%s) after the file was already written to: %d -> %d bytes, %d bytes differ, first at offset %s" % (
+                            legit, len(prev_bytes), len(outb), len(diff), diff[0] if diff else "n/a"), scen_replay(s, k))
+                    break
                 report("C18:" + fail_class(stp, prev_c), "%s(size %d, exsig %d) on a valid compound file: %s" % (stp["op"], stp["size"], stp["exsize"], stp["status"]),
                        scen_replay(s, k))
                 # whatever happened, the file on disk must still be the valid container it was
-                hard = [x for x in P if x[0] not in ("file-size-not-sector-multiple",)]
                 if hard or pay != prev_pay:
                     report("C18:torn-after-failure", "after the failed operation the file is no longer the valid container it was: %s" % (hard[:3],), scen_replay(s, k))
                 break
@@ -556,20 +638,20 @@ def run(ctx, replay=None):
                 if code == "rb-black-height":
                     key = "C18:rb:black-height"
                 elif code == "tree-order":
-                    # classify: ordered according to relic's own comparator (then the comparator is the defect) or not at all
-                    ok_relic = True
+                    # classify: two neighbours with the SAME name (a replace that did not find the old entry), ordered according to
+                    # relic's former byte-wise comparator (then the comparator is the defect), or not ordered at all
+                    ok_relic, dup = True, False
                     for path in set(p[:-1] for p, _ in c.items):
                         sib = [p[-1] for p, _ in c.items if p[:-1] == path]     # c.items is in tree (in-order) sequence per storage
                         ok_relic &= all(relic_key(a) < relic_key(b) for a, b in zip(sib, sib[1:]))
-                    key = "C18:tree-order:relic-comparator" if ok_relic else "C18:tree-order:unsorted"
+                        dup |= any(same_name(a, b) for a, b in zip(sib, sib[1:]))
+                    key = "C18:tree-order:duplicate-name" if dup else "C18:tree-order:relic-comparator" if ok_relic else "C18:tree-order:unsorted"
                 report(key, "output of %s #%d is not a valid compound file: %s %s" % (stp["op"], k, code, detail), scen_replay(s, k, {"problems": P[:10]}))
-            # pre-existing streams and storages: name, metadata and bytes
-            opname = tuple(ord(ch) for ch in bytes.fromhex(stp.get("name", "")).decode("utf8"))
-            if stp["op"] == "sign":
-                touched = {(SIG,), (SIGEX,)}
-            else:
-                low = "".join(map(chr, opname)).lower()
-                touched = set(p for p in list(prev_pay) + list(pay) if len(p) == 1 and "".join(map(chr, p[0])).lower() == low)
+            # pre-existing streams and storages: name, metadata and bytes.  What an operation on `name` may touch is every root
+            # STREAM that carries that name under the MS-CFB comparison (that is what "replace" means inside a storage), nothing else
+            def carries(p, table):
+                return len(p) == 1 and table[p][0] == 2 and any(same_name(p[0], n) for n in opnames)
+            touched = set(p for p in prev_pay if carries(p, prev_pay)) | set(p for p in pay if carries(p, pay))
             if not any(code in ("tree-links-unallocated-entry", "tree-entry-reached-twice", "tree-link-out-of-range") for code, _ in P):
                 for p, v in prev_pay.items():
                     if p in touched:
@@ -582,23 +664,27 @@ def run(ctx, replay=None):
                 for p in pay:
                     if p not in prev_pay and p not in touched:
                         report("C18:payload:extra", "unexpected object %r after %s #%d" % ([u16s(x) for x in p], stp["op"], k), scen_replay(s, k))
-                # the operation itself: the new stream is there with the bytes that were given
+                # the operation itself.  After an insert / replace of `name` exactly ONE root entry carries that name, it is spelled
+                # as given and holds the given bytes; after a delete none does.  (c.items lists every entry reachable in the tree, so a
+                # stale entry in another spelling is counted even though a lookup by tree search would find only one of the two.)
                 data = bytes.fromhex(stp.get("data", ""))
-                if stp["op"] == "sign" and data and len(data) == stp["size"] + stp["exsize"]:
-                    got = pay.get((SIG,))
-                    if got is None or got[6] != data[:stp["size"]]:
-                        report("C18:signature-stream-wrong", "\\5DigitalSignature does not hold the inserted bytes after sign #%d" % k, scen_replay(s, k))
-                    gotx = pay.get((SIGEX,))
-                    if stp["exsize"] and (gotx is None or gotx[6] != data[stp["size"]:]):
-                        report("C18:signature-stream-wrong", "\\5MsiDigitalSignatureEx does not hold the inserted bytes after sign #%d" % k, scen_replay(s, k))
-                    if not stp["exsize"] and gotx is not None:
-                        report("C18:signature-stream-wrong", "\\5MsiDigitalSignatureEx still present after sign without extended digest #%d" % k, scen_replay(s, k))
-                if stp["op"] == "add" and data and len(data) == stp["size"]:
-                    got = pay.get((opname,))
-                    if got is None or got[6] != data:
-                        report("C18:added-stream-wrong", "added stream does not hold the given bytes after add #%d" % k, scen_replay(s, k))
-                if stp["op"] == "del" and (opname,) in pay:
-                    report("C18:deleted-stream-present", "stream still present after delete #%d" % k, scen_replay(s, k))
+                have_data = bool(data) and len(data) == stp["size"] + stp["exsize"]
+                for n in opnames:
+                    holders = [p for p in pay if len(p) == 1 and same_name(p[0], n)]
+                    if stp["op"] == "add" or (stp["op"] == "sign" and (n == SIG or stp["exsize"])):
+                        want = data[:stp["size"]] if n != SIGEX else data[stp["size"]:]
+                        if len(holders) != 1:
+                            report("C18:replace:name-not-unique", "%d root entries carry the name %r (MS-CFB comparison) after %s #%d: %s" % (
+                                len(holders), u16s(n), stp["op"], k, [u16s(p[0]) for p in holders]), scen_replay(s, k))
+                        elif holders[0][0] != tuple(n) or pay[holders[0]][0] != 2:
+                            report("C18:replace:stale-entry", "after %s #%d the name %r is carried by %r (type %d), not by the new stream" % (
+                                stp["op"], k, u16s(n), u16s(holders[0][0]), pay[holders[0]][0]), scen_replay(s, k))
+                        elif have_data and pay[holders[0]][6] != want:
+                            key = "C18:signature-stream-wrong" if stp["op"] == "sign" else "C18:added-stream-wrong"
+                            report(key, "%r does not hold the given bytes after %s #%d" % (u16s(n), stp["op"], k), scen_replay(s, k))
+                    elif holders:
+                        key = "C18:signature-stream-wrong" if stp["op"] == "sign" else "C18:deleted-stream-present"
+                        report(key, "%r still present (as %s) after %s #%d" % (u16s(n), [u16s(p[0]) for p in holders], stp["op"], k), scen_replay(s, k))
             # digests: tar route == direct route; inserting signatures does not change the digest
             d = stp.get("dig") or []
             if len(d) == 4 and not replay_static:
@@ -606,8 +692,17 @@ def run(ctx, replay=None):
                     report("C18:digest:" + digest_class(c), "DigestMsiTar(MsiToTar(f)) != DigestMSI(f) after %s #%d: %s" % (stp["op"], k, d), scen_replay(s, k))
                 elif stp["op"] == "sign" and s.get("indig") and d[0] != s["indig"][0] and all(x["op"] == "sign" for x in s["steps"][:k + 1]) \
                         and not d[0].startswith(("err", "panic")):
-                    report("C18:digest:changed-by-signing", "DigestMSI changed from %s to %s by inserting signature streams" % (s["indig"][0], d[0]), scen_replay(s, k))
+                    if digest_class(c0) == "case-variant-signature-name":
+                        # the input holds a root stream that carries a signature name in another spelling: the writer replaces it (it IS
+                        # that name inside a storage) but hashMsiDir / DigestMsiTar pick the signature streams out with ==, so the
+                        # digest relic signs (of the input, variant hashed as content) is not the digest of the file it produces
+                        report("C18:digest:case-variant-signature-name", "DigestMSI of the input (%s) differs from DigestMSI after signing (%s): a root stream spelled %s "
+                               "is digested as content but replaced by the signature" % (s["indig"][0], d[0],
+                               [u16s(p[0]) for p, _ in c0.items if len(p) == 1 and p[0] not in (SIG, SIGEX) and (same_name(p[0], SIG) or same_name(p[0], SIGEX))]), scen_replay(s, k))
+                    else:
+                        report("C18:digest:changed-by-signing", "DigestMSI changed from %s to %s by inserting signature streams" % (s["indig"][0], d[0]), scen_replay(s, k))
             prev_c, prev_pay = c, pay
+            prev_bytes = outb
 
     # ------------------------------------------------------------ oracle on the allocation primitives (from their contract)
     for a in alloc:
@@ -676,6 +771,7 @@ def run(ctx, replay=None):
     # ------------------------------------------------------------ model / implementation correspondence
     evaluated, mism = 0, {}
     n_rb_valid_coded = n_rb_valid_fixed = n_order_diff = n_in_domain = 0
+    n_dirops, n_rebuild = {}, 0
     if model_ok:
         try:
             # red-black insertion
@@ -718,6 +814,55 @@ def run(ctx, replay=None):
                                       (u16s(c["a"] or []), u16s(c["b"] or []), c["less"], bool(cfb_lt)), {"cmd": "c18less", "cases": [c]})
                 elif bool(cfb_lt) != c["less"]:
                     n_order_diff += 1
+            # directory operations: DeleteFile / AddFile / InsertMSISignature before Close, and rebuildTree through Close
+            def state_val(o):
+                files = [[u] + row for u, row in zip(o["units"], o["files"])]
+                return [o["ss"], o["mss"], o["hdr"][4], o["root"], o["sat"], o["ssat"], o["rootfiles"], files]
+            def files_val(o):
+                return [[u] + row for u, row in zip(o["units"], o["files"])]
+            def runes(hexname):
+                return [ord(ch) for ch in bytes.fromhex(hexname).decode("utf8", errors="replace")]
+            def obs_status(st):
+                if st == "ok": return 0
+                if st.startswith("panic"): return 2
+                if "can't delete or replace storages" in st: return 11
+                if "name is too long" in st: return 12
+                return 1
+            dvals, didx, rvals, ridx = [], [], [], []
+            for s in scen:
+                for k, stp in enumerate(s["steps"]):
+                    pre, mid, post = stp.get("pre"), stp.get("mid"), stp.get("post")
+                    if not pre or (stp["status"] == "ok" and not mid) or stp["status"].startswith("err:open"):
+                        continue
+                    kind = {"add": 0, "del": 1, "sign": 2}[stp["op"]]
+                    opv = [kind, runes(stp.get("name", "")), stp["size"], stp["exsize"]]
+                    op_status = "ok" if mid else stp["status"]      # a failure after the snapshot comes from Close, not from the operation
+                    dvals.append([6, [state_val(pre), opv, obs_status(op_status), state_val(mid if mid else pre)]])
+                    didx.append((s, k))
+                    if stp["status"] == "ok" and post:
+                        rvals.append([7, [state_val(pre), opv, files_val(post)]])
+                        ridx.append((s, k))
+            for (s, k), r in zip(didx, ctx.run_model(dvals)):
+                evaluated += 1
+                codes, mstatus, uniq_pre, uniq_obs, counts = r
+                stp = s["steps"][k]
+                n_dirops[stp["op"]] = n_dirops.get(stp["op"], 0) + 1
+                if codes:
+                    mism.setdefault("dirop", []).append({"scenario": s["id"], "kind": s["kind"], "desc": s["desc"], "step": k, "op": stp["op"], "name": stp.get("name", ""),
+                                                         "size": stp["size"], "exsize": stp["exsize"], "status": stp["status"], "codes": codes, "model_status": mstatus,
+                                                         "replay": scen_replay(s, k)["scenario"]})
+                # the specification evaluated on the implementation's own directory (C18.DirModel spec_unique / count_same): a second,
+                # independent statement of "sibling names stay unique" and "exactly one entry carries the name"
+                if stp.get("mid") and uniq_pre and not uniq_obs:
+                    report("C18:sibling-names-not-unique", "after %s #%d two entries of the root storage carry the same name under the MS-CFB comparison "
+                           "(rootFiles of the open document, before Close)" % (stp["op"], k), scen_replay(s, k))
+            for (s, k), r in zip(ridx, ctx.run_model(rvals)):
+                evaluated += 1
+                codes, ok_obs, ok_model = r
+                n_rebuild += 1
+                if codes:
+                    mism.setdefault("rebuild", []).append({"scenario": s["id"], "kind": s["kind"], "desc": s["desc"], "step": k, "codes": codes,
+                                                           "replay": scen_replay(s, k)["scenario"]})
             # the proved validator on every file (files above 1 MiB are left to the python oracle)
             small = [(p, codes) for p, codes in files if os.path.getsize(p) <= 1 << 20]
             res = ctx.run_model([[1, [Hex(open(p, "rb").read().hex())]] for p, _ in small], timeout=900)
@@ -734,6 +879,11 @@ def run(ctx, replay=None):
             ctx.violation("C18:validator-disagreement", "extracted cfb_check and the python oracle disagree on %d files (python: %s, Coq conditions failing: %s)" %
                           (len(cs), c["python"], c["coq_conditions"]), {"file_hex": data.hex() if len(data) < 1 << 18 else "", "case": c,
                           "broken": "agreement between C18.Model.cfb_check and the oracle of checks/c18.py"}, False)
+        elif what in ("dirop", "rebuild"):
+            brief = [{k: v for k, v in c.items() if k != "replay"} for c in cs[:5]]
+            ctx.violation("C18:correspondence:" + what, "model and implementation disagree on %d %s cases (first: scenario %s step %d %s, codes %s)" % (
+                              len(cs), what, cs[0]["desc"], cs[0]["step"], cs[0].get("op", "close"), cs[0]["codes"]),
+                          {"cmd": "c18", "scenario": cs[0]["replay"], "cases": brief, "broken": "correspondence C18.Run (" + what + "): C18.DirModel vs lib/comdoc"}, False)
         else:
             ctx.violation("C18:correspondence:" + what, "model and implementation disagree on %d %s cases" % (len(cs), what),
                           {"cmd": "c18" + what.split(":")[0], "cases": cs[:3], "broken": "correspondence C18.Run (" + what + ")"}, False)
@@ -741,7 +891,13 @@ def run(ctx, replay=None):
     # ------------------------------------------------------------ evidence
     cov = ctx.proof_coverage(["srcgen: SecID/DirType/Color constants, Header and RawDirEnt layouts, short/long decision, makeFreeSectors/addStream/"
                               "writeShortSector/allocSectorTables arithmetic and conditions, lessDirEnt decision function, colour of new red-black nodes "
-                              "and root blackening, Close/AddFile/InsertMSISignature call order",
+                              "and root blackening, Close/AddFile/InsertMSISignature call order; DeleteFile (name-length guard, probe NameLength, keep "
+                              "condition, storage refusal, table freed per branch, blanking, rootFiles commit, changed flag), freeSectors break condition, "
+                              "AddFile error propagation and rootFiles append, newDirEnt (length guard, NameLength, type, links), appendDirEnt (free-slot "
+                              "test, growth), rebuildTree (comparator, colour and child-link assignments, StorageRoot), Close's skip condition, the descent "
+                              "test of redblack insert, InsertMSISignature as a plan of AddFile/DeleteFile calls",
+                              "Unicode Character Database simple upper-case table (coq/C18/UnicodeSpec.v, static, from UnicodeData.txt 14.0.0 via perl); "
+                              "proved equal to the toolchain's unicode.ToUpper on every UTF-16 code unit",
                               "hooks lib/comdoc/verif_hooks.go (tag verif): makeFreeSectors, addStream, allocSectorTables, lessDirEnt, rootFiles, msatList",
                               "harness-owned CFB generator (harness/p/c18/gen.go) and the MS-CFB oracle in checks/c18.py; agreement of the oracle with the "
                               "proved validator cfb_check is checked on every file",
@@ -753,7 +909,11 @@ def run(ctx, replay=None):
                 "rule": "scenario = harness-generated valid compound file (512/4096-byte sectors, mini stream present/absent, stream sizes at 0/63/64/65/"
                         "4095/4096/4097/9000, nested storages, free sector and free mini-sector patterns, directory exactly filling its sectors, tables "
                         "before/after data, DIFAT growth at 109 FAT sectors) or dummy.msi, followed by a history of InsertMSISignature/AddFile/DeleteFile "
-                        "through the real comdoc writer; every file left behind is validated by the MS-CFB oracle and by the proved validator, every "
+                        "through the real comdoc writer, including root entries whose names equal the operation's name under the MS-CFB comparison "
+                        "in another spelling (ASCII case, long s, dotless i, Latin-1, Greek, Cyrillic, title-case digraphs, fullwidth), look-alikes one "
+                        "unit or one length away, names Unicode case FOLDING equates but MS-CFB does not (Kelvin sign, capital sharp s, Deseret), storages "
+                        "carrying the name (refusal), 31/32-unit names, random names over a case-rich alphabet with random histories; "
+                        "every file left behind is validated by the MS-CFB oracle and by the proved validator, every "
                         "pre-existing object compared byte for byte, tar and direct digests compared. distinct_nontrivial = distinct (layout, operation, "
                         "sizes, position in history) steps + red-black key sequences + allocation cases",
                 "samples": samples, "exhaustive": False, "input_distribution": kinds, "scenario_steps": n_steps, "steps_completed": n_ok,
@@ -761,9 +921,16 @@ def run(ctx, replay=None):
                 "alloc_cases": len(alloc), "comparator_pairs": len(less), "comparator_pairs_in_agreement_domain": n_in_domain,
                 "comparator_pairs_outside_domain_where_coq_transcription_differs": n_order_diff,
                 "comparator_pairs_where_python_and_go_case_tables_differ": n_py_go_diff,
+                "directory_operations_compared_with_model": n_dirops, "rebuilds_compared_with_model": n_rebuild, "legitimate_refusals": refusals,
                 "model_mismatches": {k: len(v) for k, v in mism.items()}})
     return ctx.finish("proof", cov, ["validity is [MS-CFB] as transcribed in C18/Proofs.v (valid_with) and in the oracle of checks/c18.py; "
-                                     "upper-casing of names in the Coq transcription of the MS-CFB order covers ASCII and Latin-1 (theorem agreement_domain); for cased letters above U+00FF Go's unicode.ToUpper (srcgen table go_upper_runs) is the reference and the real comparator is compared with it on every pair",
-                                     "the writer as a whole (Close) is covered by validation of its outputs, not by a refinement proof; the proved parts are "
-                                     "the red-black insertion, the allocation primitives and the validator",
+                                     "upper-casing of names is the simple case mapping of the Unicode Character Database (coq/C18/UnicodeSpec.v, used by the Coq "
+                                     "validator, by the specification of C18/DirModel.v and by this oracle); theorem upper_unit_is_ucd_simple_upper shows relic's upperUnit "
+                                     "with the toolchain's unicode.ToUpper is that mapping on every code unit",
+                                     "directory layer (C18/DirModel.v): names given to AddFile/DeleteFile are valid UTF-8 without NUL; sector allocation inside AddFile "
+                                     "is the addStream model of C18/Model.v; the theorems speak about successful operations (errors and panics are compared "
+                                     "with the implementation but not characterised), the root storage only (relic cannot modify another storage)",
+                                     "the rest of Close (directory stream re-allocation, table rewrite, header, truncate) is covered by validation of its outputs, "
+                                     "not by a refinement proof; proved: red-black insertion, allocation primitives, the validator, DeleteFile/AddFile/"
+                                     "InsertMSISignature name matching and uniqueness over all histories, rebuildTree and the links it writes",
                                      "crypto: SHA-256 from Go/Python standard libraries"])
